@@ -46,6 +46,7 @@ func NewDualView() *View {
 func NewViewFromGroupedRecord(ctx context.Context, flags *option.Flags, referenceRecord ReferenceRecord) (*View, error) {
 	view := NewView()
 	view.Header = referenceRecord.view.Header
+	view.Header = view.Header.Copy()
 	record := referenceRecord.view.RecordSet[referenceRecord.recordIndex]
 
 	view.RecordSet = make(RecordSet, record.GroupLen())
